@@ -212,6 +212,13 @@ Pre(cfg, c) ==
      \cup UNION { One("dvalue", MPath("Flip", << j, 0, 0 >>), "d-value bit") \cup One("dvalue", MBit(<< j, 1, 0 >>, 64), "d-value MAC") : j \in Pos(la) }
      \cup UNION { One("faand", MPath("Flip", << j, 0 >>), "Beaver d") \cup One("faand", MPath("Flip", << j, 1 >>), "Beaver e")
                   \cup One("faand", MBit(<< j, 2 >>, 1), "Beaver d MAC") \cup One("faand", MBit(<< j, 3 >>, 126), "Beaver e MAC") : j \in Pos(la) })
+  \* a RUSHING party that sends back what it received (n = 2): its leaky AND is wrong (flipped e bit), its commitment and
+  \* its check value are copies of the victim's -- two equal check values XOR to zero.  The victim must notice BY ITSELF
+  \* ("detect": an error because the peer has gone does not count: a real cheater would have carried on)
+  \cup (IF a = 0 \/ n # 2 THEN {} ELSE
+          { Scn("pre", c, << Dev(c, q, "flaand", 0, MPath("Flip", << 0, 0 >>)), Dev(c, q, "flaand comm", 0, [m |-> "Mirror", inst |-> 0]),
+                            Dev(c, q, "flaand hash", 0, [m |-> "Mirror", inst |-> 0]) >>,
+                "detect", {q}, "mirrored LaAND commitment and check value") : q \in Others })
   \* the same alteration at TWO positions of one checked vector (aggregated checks must not let them cancel)
   \cup UNION { Two("fabitn", MPath("Flip", << 0, 0 >>), MPath("Flip", << 3 * RHO - 1, 0 >>), "two aBit test bits")
                \cup Two("fabitn", MBit(<< 0, 1 >>, 5), MBit(<< 3 * RHO - 1, 1 >>, 5), "two aBit test MACs")
